@@ -171,7 +171,7 @@ func layoutAccesses(p *an.Prog, f *ssa.Function) []layAccess {
 		switch x := in.(type) {
 		case *ssa.Call:
 			if callee := x.Call.StaticCallee(); callee != nil {
-				k := an.FuncKey(callee)
+				k := an.CanonKeyOf(callee)
 				if strings.HasPrefix(k, "(encoding/binary.littleEndian).") || strings.HasPrefix(k, "(encoding/binary.bigEndian).") {
 					w := binWidth[callee.Name()]
 					if w > 0 && len(x.Call.Args) >= 2 {
